@@ -345,9 +345,20 @@ func (s *kvSys) Apply(op sxOp) string {
 			s.touch(want)
 		}
 	}
-	// observable state: every key through Get would disturb the order, so
-	// the comparison of the resident set is done on a probe copy of the history
-	// by the Get operations themselves; here only the size invariant is checked
+	// complete state comparison on every edge (the search prunes on the model's
+	// canonical state, so a silent divergence must not survive an edge)
+	order, vals := s.impl.VerifState()
+	if fmt.Sprint(order) != fmt.Sprint(s.order) {
+		return fmt.Sprintf("after %s recency order %v, model %v", op, order, s.order)
+	}
+	if len(vals) != len(s.vals) {
+		return fmt.Sprintf("after %s resident keys %v, model %v", op, vals, s.vals)
+	}
+	for k, v := range s.vals {
+		if w, ok := vals[k]; !ok || w != v {
+			return fmt.Sprintf("after %s resident keys %v, model %v", op, vals, s.vals)
+		}
+	}
 	if len(s.vals) > s.capacity {
 		return "model exceeded capacity"
 	}
